@@ -73,7 +73,8 @@ def run_delay(c):
 def run_concat(c):
     from reservoirpy.nodes import Concat
     node = Concat()
-    parts = [np.array(p, dtype=float).reshape(1, -1) for p in c["parts_f"]]
+    dts = c.get("dtypes") or ["float64"] * len(c["parts_f"])
+    parts = [np.array(p, dtype=float).astype(dt).reshape(1, -1) for p, dt in zip(c["parts_f"], dts)]
     if len(parts) == 1:
         out = node.call(parts[0])
     else:
@@ -196,6 +197,22 @@ def gen_cases(ctx):
     for _ in range(ctx.n(30, 200)):
         k = g.randint(1, 4)
         cases.append({"kind": "concat", "parts_f": [g.dyvec(g.randint(1, 4)) for _ in range(k)]})
+    # parts of different numerical types (an integer-coded channel next to real-valued ones, float32 states next to
+    # float64 data), the narrower type first or last: every value must come through unchanged
+    for _ in range(ctx.n(24, 200)):
+        k = g.randint(2, 4)
+        dts = [g.choice(["int64", "int8", "float32", "float64", "float64"]) for _ in range(k)]
+        parts = []
+        for dt in dts:
+            w = g.randint(1, 3)
+            if dt.startswith("int"):
+                parts.append([float(g.randint(-9, 9)) for _ in range(w)])
+            elif dt == "float32":
+                parts.append(g.dyvec(w))
+            else:
+                # not representable in single precision (and not integers)
+                parts.append([float(Fraction(v) + Fraction(g.randint(1, 7), 2 ** 40) + Fraction(1, 4)) for v in g.dyvec(w)])
+        cases.append({"kind": "concat", "dtypes": dts, "parts_f": parts})
     # parts of one common width (a pool of equally sized senders), distinct values everywhere
     for k in (2, 3, 4):
         for w in (2, 3, 5):
